@@ -16,7 +16,7 @@ from __future__ import annotations
 import ast
 from typing import Dict, List, Optional, Set, Tuple
 
-from ..astq import assignments, calls, kwarg, params, stmts
+from ..astq import assignments, calls, kwarg, local_from, params, stmts
 from ..callgraph import fkey
 from ..cfg import CFG, cond_atoms, disj_atoms, flatten_conj, path_conditions
 from ..report import Check
@@ -47,11 +47,48 @@ def run(chk: Check, proj: Project) -> None:
 
     s5_accessors(chk, proj, ["CONTEXT_BEHAVIOR"], rule="S8")
     s10_mode_source(chk, proj, w)
+    s12_layer_frame(chk, proj, w)
     from . import C06
 
     # variable layers of the caller's Context only (`<ctx>.push/.update`); the render_context window is C06's (F6b)
     chk.borrow("S11", "a layer pushed on the CALLER's Context in statement form is popped also when something in between raises (shared with C06-S2b; failed renders as such are C06)",
                lambda sub: C06.s2b_push_pop(sub, proj, w), only=lambda o: o.construct.endswith(">.push") or o.construct.endswith(">.update") or o.construct.endswith(">.dicts.insert") or o.construct.endswith(">.dicts.append"))
+
+
+def s12_layer_frame(chk: Check, proj: Project, w) -> None:
+    chk.rule("S12", "layer frame of fill variables: the component's data layer is ALWAYS pushed (the fill layer is positioned relative to it), variables bound between the tag and the fill are captured from the discovery marker layer INCLUSIVE, and the position correction applies on every path")
+    cm, cf = proj.func("component", "_prepare_template")
+    chk.analysed(fkey(cm, cf))
+    withs = [x for x in ast.walk(cf) if isinstance(x, ast.With) and any(params(cf)[-2] in norm(it.context_expr) or "context_data" in norm(it.context_expr) for it in x.items)]
+    okw = bool(withs) and all(isinstance(it.context_expr, ast.Call) and isinstance(it.context_expr.func, ast.Attribute) and it.context_expr.func.attr in ("update", "push") for it in withs[0].items)
+    chk.ob("S12", "component:_prepare_template:data-layer-always-pushed", cm.loc(withs[0]) if withs else cm.loc(cf), okw if withs else None,
+           "`with context.update(<data>)` is unconditional: one layer per component render, whatever get_context_data returned" if okw else
+           f"`{short(withs[0].items[0].context_expr)}` pushes the data layer only sometimes: render_func places the fill's captured variables one layer below the component layer assuming that layer exists; without it they land below the surrounding context and an outer variable of the same name wins")
+    fm, ff = proj.func("slots", "FillNode._extract_fill")
+    chk.analysed(fkey(fm, ff))
+    idx = local_from(ff, lambda v: isinstance(v, ast.Call) and last_attr(v.func) == "get_last_index" and "FILL_GEN_CONTEXT_KEY" in norm(v))
+    sl = [x for x in ast.walk(ff) if isinstance(x, ast.Subscript) and isinstance(x.slice, ast.Slice) and norm(x.value).endswith(".dicts")]
+    if not idx or not sl:
+        chk.undecided("S12", "slots:FillNode._extract_fill:capture-includes-marker-layer", fm.loc(ff), "marker index / capture slice not found")
+    else:
+        lo = sl[0].slice.lower
+        okc = lo is not None and norm(lo) == idx and sl[0].slice.upper is None
+        chk.ob("S12", "slots:FillNode._extract_fill:capture-includes-marker-layer", fm.loc(sl[0]), okc,
+               f"the capture walks `.dicts[{idx}:]`, starting AT the marker layer" if okc else
+               f"the capture walks `{norm(sl[0])}`: the marker layer itself is skipped, but tags that bind with `as var` directly in the component body ({{% firstof .. as x %}}, {{% url .. as x %}}) write into exactly that layer - their bindings are dropped and the fill sees the outer variable")
+    rm, rf = proj.func("slots", "_nodelist_to_slot_render_func.render_func")
+    chk.analysed(fkey(rm, rf))
+    iv = local_from(rf, lambda v: isinstance(v, ast.Call) and last_attr(v.func) == "get_last_index" and "_COMPONENT_CONTEXT_KEY" in norm(v))
+    dec = [x for x in ast.walk(rf) if isinstance(x, ast.AugAssign) and isinstance(x.op, ast.Sub) and norm(x.target) == iv]
+    if not iv:
+        chk.undecided("S12", "slots:render_func:position-correction-unconditional", rm.loc(rf), "component-layer index not found")
+    elif dec:
+        okd = all(d in rf.body for d in dec)
+        chk.ob("S12", "slots:render_func:position-correction-unconditional", rm.loc(dec[0]), okd,
+               f"`{short(dec[0])}` runs on every path (also when no component layer was found: index 0 becomes -1, i.e. just under the top layer)" if okd else
+               f"`{short(dec[0])}` is conditional: when the fill's context has no component layer (a component used directly in a page, isolated mode) the captured variables are inserted at the BOTTOM of the context instead of just under the top layer, and page variables of the same name win")
+    else:
+        chk.holds("S12", "slots:render_func:position-correction-unconditional", rm.loc(rf), "no position correction is needed any more (the extra layer is gone)", nontrivial=False)
 
 
 def s10_mode_source(chk: Check, proj: Project, w) -> None:
